@@ -1662,7 +1662,14 @@ func (w *qWorld) lateSlack() time.Duration {
 // lateSlackListed: the same for a channel the scanner already has in its list (the list is rebuilt every
 // refresh interval; between two rebuilds every listed channel is drawn with the same probability per tick).
 func (w *qWorld) lateSlackListed() time.Duration {
-	return w.lateSlack() - 2*ms(w.cfg.ScanRefreshMs)
+	// the list may still hold channels that have been deleted since the last refresh: every channel name this
+	// run has ever used bounds its length
+	nch := len(w.chans)
+	ticks := 3
+	if nch > w.cfg.ScanSelCount && w.cfg.ScanSelCount > 0 {
+		ticks = 28 * (nch + w.cfg.ScanSelCount - 1) / w.cfg.ScanSelCount
+	}
+	return time.Duration(ticks)*ms(w.cfg.ScanIntervalMs) + time.Second
 }
 
 // checkLate (C04, "boundedly late"): an unanswered message cannot stay with
@@ -1704,7 +1711,9 @@ func (w *qWorld) checkLate() {
 			slack := slack
 			if refresh2 := 2 * ms(w.cfg.ScanRefreshMs); !cm.notListedBefore.IsZero() && !cm.notListedBefore.Add(refresh2).After(d.At.Add(co.MsgTimeout)) {
 				// the channel had been in the scanner's list for a while when this delivery could first expire
-				slack = w.lateSlackListed()
+				if sl := w.lateSlackListed(); sl < slack {
+					slack = sl
+				}
 			}
 			limit := d.At.Add(ms(w.cfg.MaxMsgTimeoutMs)).Add(slack)
 			if cm.unpausedAt.After(d.At) {
